@@ -40,73 +40,8 @@ func runC16(x *Ctx) {
 	}
 	decoded := "call[github.com/multiformats/go-multibase.Decode](slice(arg0,const(8),_,_))"
 	codeT := "conv[github.com/multiformats/go-multicodec.Code](call[github.com/multiformats/go-varint.FromUvarint](" + decoded + "#1)#0)"
-
-	// ---- tables
-	parsed := map[string]bool{}
 	psel, _, _ := x.E.Select(parse, paths.WantSuccess)
-	for _, v := range psel {
-		for _, f := range v.Facts {
-			if f.Pol && f.Atom.Op == "eq" {
-				a, b := f.Atom.Args[0], f.Atom.Args[1]
-				if a.Op == "const" && b.String() == codeT {
-					parsed[a.Name] = true
-				}
-				if b.Op == "const" && a.String() == codeT {
-					parsed[b.Name] = true
-				}
-			}
-		}
-	}
-	table := map[string]bool{}
-	for _, b := range pub.Blocks {
-		for _, in := range b.Instrs {
-			if mu, ok := in.(*ssa.MapUpdate); ok {
-				if k, ok := mu.Key.(*ssa.Const); ok {
-					table[k.Value.ExactString()] = true
-				}
-			}
-		}
-	}
-	emitted := map[string]bool{}
-	fsel, _, _ := x.E.Select(from, paths.WantSuccess)
-	okLayoutF := len(fsel) > 0
-	dLayoutF := ""
-	for _, v := range fsel {
-		cell := paths.CellOf(v.Results()[0])
-		if cell == nil {
-			okLayoutF = false
-			dLayoutF += "returns " + v.Results()[0].String() + "\n"
-			continue
-		}
-		fs := v.FieldStores(cell)
-		c := fs["code"]
-		switch {
-		case c == nil:
-			okLayoutF = false
-			dLayoutF += "code not set\n"
-		case c.Op == "const":
-			emitted[c.Name] = true
-		case c.String() == "call[did.codeForCurve](arg0)#0":
-			csel, _, _ := x.E.Select(cfc, paths.WantSuccess)
-			for _, cv := range csel {
-				if r := cv.Results()[0]; r.Op == "const" {
-					emitted[r.Name] = true
-				}
-			}
-		default:
-			okLayoutF = false
-			dLayoutF += "code is " + c.String() + "\n"
-		}
-		// bytes = string(append(ToUvarint(uint64(code)), key...)) with the same code term
-		if c != nil {
-			bts := fs["bytes"]
-			wantPrefix := "conv[string](call[builtin.append](call[github.com/multiformats/go-varint.ToUvarint](conv[uint64](" + c.String() + ")),"
-			if bts == nil || !strings.HasPrefix(bts.String(), wantPrefix) {
-				okLayoutF = false
-				dLayoutF += fmt.Sprintf("bytes = %v does not start with the varint of the stored code %s\n", bts, c)
-			}
-		}
-	}
+	emitted, parsed, table, okLayoutF, dLayoutF := didCodeTables(x, parse, pub, from, cfc)
 	sub := func(a, b map[string]bool) string {
 		var miss []string
 		for k := range a {
@@ -230,4 +165,78 @@ func tableHas(f *ssa.Function, name string) bool {
 		}
 	}
 	return false
+}
+
+// didCodeTables computes the multicodec tables of package did: codes FromPubKey can emit, codes
+// Parse accepts, keys of PubKey's unmarshaller table; plus the layout verdict of FromPubKey.
+func didCodeTables(x *Ctx, parse, pub, from, cfc *ssa.Function) (emitted, parsed, table map[string]bool, okLayoutF bool, dLayoutF string) {
+	decoded := "call[github.com/multiformats/go-multibase.Decode](slice(arg0,const(8),_,_))"
+	codeT := "conv[github.com/multiformats/go-multicodec.Code](call[github.com/multiformats/go-varint.FromUvarint](" + decoded + "#1)#0)"
+
+	// ---- tables
+	parsed = map[string]bool{}
+	psel, _, _ := x.E.Select(parse, paths.WantSuccess)
+	for _, v := range psel {
+		for _, f := range v.Facts {
+			if f.Pol && f.Atom.Op == "eq" {
+				a, b := f.Atom.Args[0], f.Atom.Args[1]
+				if a.Op == "const" && b.String() == codeT {
+					parsed[a.Name] = true
+				}
+				if b.Op == "const" && a.String() == codeT {
+					parsed[b.Name] = true
+				}
+			}
+		}
+	}
+	table = map[string]bool{}
+	for _, b := range pub.Blocks {
+		for _, in := range b.Instrs {
+			if mu, ok := in.(*ssa.MapUpdate); ok {
+				if k, ok := mu.Key.(*ssa.Const); ok {
+					table[k.Value.ExactString()] = true
+				}
+			}
+		}
+	}
+	emitted = map[string]bool{}
+	fsel, _, _ := x.E.Select(from, paths.WantSuccess)
+	okLayoutF = len(fsel) > 0
+	for _, v := range fsel {
+		cell := paths.CellOf(v.Results()[0])
+		if cell == nil {
+			okLayoutF = false
+			dLayoutF += "returns " + v.Results()[0].String() + "\n"
+			continue
+		}
+		fs := v.FieldStores(cell)
+		c := fs["code"]
+		switch {
+		case c == nil:
+			okLayoutF = false
+			dLayoutF += "code not set\n"
+		case c.Op == "const":
+			emitted[c.Name] = true
+		case c.String() == "call[did.codeForCurve](arg0)#0":
+			csel, _, _ := x.E.Select(cfc, paths.WantSuccess)
+			for _, cv := range csel {
+				if r := cv.Results()[0]; r.Op == "const" {
+					emitted[r.Name] = true
+				}
+			}
+		default:
+			okLayoutF = false
+			dLayoutF += "code is " + c.String() + "\n"
+		}
+		// bytes = string(append(ToUvarint(uint64(code)), key...)) with the same code term
+		if c != nil {
+			bts := fs["bytes"]
+			wantPrefix := "conv[string](call[builtin.append](call[github.com/multiformats/go-varint.ToUvarint](conv[uint64](" + c.String() + ")),"
+			if bts == nil || !strings.HasPrefix(bts.String(), wantPrefix) {
+				okLayoutF = false
+				dLayoutF += fmt.Sprintf("bytes = %v does not start with the varint of the stored code %s\n", bts, c)
+			}
+		}
+	}
+	return
 }
